@@ -23,6 +23,7 @@ def run(ctx):
     stats = {"schemas": 0, "types": 0, "fills": 0, "model_unsupported_types": 0, "diverging_both": 0, "kernel_rejected": 0,
              "types_terminating_by_theorem": 0, "xwf_false": 0, "max_tl1_bytes": 0, "tl2_written": 0}
     mism, bad, samples, unit_errors, skipped, diverging = [], [], [], [], [], []
+    distinct = set()     # distinct (schema, type, TL1 bytes) of values with more than 8 bytes (more than tag + one word)
     lock = threading.Lock()
     rngs = {u.name: random.Random(ctx.rng.getrandbits(64)) for u in st.units}
 
@@ -64,6 +65,7 @@ def run(ctx):
                 unit_errors.extend(uerr)
             return
         ubad, umism, uskip, udiv = [], [], {}, {}
+        udist = set()
         s_ = {"schemas": 1, "types": len(tops), "fills": 0, "diverging_both": 0, "tl2_written": 0,
               "types_terminating_by_theorem": sum(1 for tid, _, _ in tops if rank[tid] > 0)}
         maxb = 0
@@ -74,6 +76,8 @@ def run(ctx):
             if gf[0] == "ok":
                 s_["fills"] += 1
                 maxb = max(maxb, 0 if gf[1] == "-" else len(gf[1]) // 2)
+                if len(gf[1]) > 16:
+                    udist.add((u.name, name, gf[1]))
                 flags = dict(x.split("=") for x in gf[2:])
                 if flags.get("j") != "ok":
                     ubad.append((u.name, l, g, f"C18:writer:json:{u.name}:{name}", "JSON writer/reader does not accept the random value"))
@@ -108,6 +112,7 @@ def run(ctx):
                 stats[k] = stats.get(k, 0) + s_[k]
             stats["max_tl1_bytes"] = max(stats["max_tl1_bytes"], maxb)
             stats["model_unsupported_types"] += len(uskip)
+            distinct.update(udist)
             unit_errors.extend(uerr)
             bad.extend(ubad)
             mism.extend(umism)
@@ -126,7 +131,7 @@ def run(ctx):
 
     family_report(
         ctx, st, PROPS, ["Obj", "Prim"], "corr:C18:rand", mism, bad, unit_errors, stats, samples,
-        rule="per schema (repository schemas, the F7 schema, random schemas): every top-level object the generated factory creates x seeds: "
+        rule="non-trivial = distinct (schema, type, TL1 bytes) with more than 8 bytes; per schema (repository schemas, the F7 schema, random schemas): every top-level object the generated factory creates x seeds: "
              "FillRandom driven by the scripted splitmix64 source; TL1 bytes compared with enc1(fill_random) of the extracted model on the same stream; "
              "oracle on the implementation alone: TL1/JSON/TL2 writers accept the value and what they wrote reads back to the same TL1 bytes, same seed twice gives the same bytes; "
              "a crash counts as the known divergence only when the model runs out of fuel on the same stream",
@@ -138,5 +143,5 @@ def run(ctx):
                      "TL2 and JSON writers are covered by the Go-side oracle only (the Coq model is TL1-level): partial",
                      "termination is proved for the non-recursive part of a schema only (rank certificate); for recursive types it depends on the stream (and fails for F7-like types)",
                      f"non-termination is observed as out-of-fuel at fuel {FUEL} or more than 60000 draws (same budget on both sides), proved for all fuel and all streams only for the F7 schema"],
-        extra={"evaluations": stats["fills"] + stats["diverging_both"], "distinct_nontrivial": stats["fills"],
+        extra={"evaluations": stats["fills"] + stats["diverging_both"], "distinct_nontrivial": len(distinct),
                "skipped_constructs": skipped[:40], "diverging_types": diverging})
